@@ -112,6 +112,7 @@ class Features:
     style_names: bool = True
     enum_first_zero_bias: bool = True
     enum_first_zero: bool = False  # first member is always 0 (keeps recorded finding D4b out of a check)
+    keyword_field_names: bool = True  # a field called `type`, rarely
     signed_nonstd: bool = True  # signed widths other than 8/16/32/64
     typedef_syntax: bool = False  # deprecated `typedef T Name` spelling of an alias, sometimes
     max_bytes_option: bool = False  # `option max_bytes = N` (N >= the message's size) on some messages
@@ -350,10 +351,12 @@ class _Builder:
                 t = self.any_type(max(1, remaining))
                 remaining -= ref.nbits(t)
                 fname = None
+                if self.feat.keyword_field_names and "type" not in used_fields and d(st.integers(0, 39)) == 0:
+                    fname = "type"  # the grammar allows this keyword as a field name (issue 39)
                 kk = d(st.integers(0, len(FIELD_WORDS) - 1))
                 for off in range(len(FIELD_WORDS)):
                     w = FIELD_WORDS[(kk + off) % len(FIELD_WORDS)]
-                    if w not in used_fields:
+                    if fname is None and w not in used_fields:
                         fname = w
                         break
                 assert fname is not None
@@ -362,6 +365,35 @@ class _Builder:
         self.open_chain.pop()
         if not m.fields() and not self.feat.empty_message:
             m.items.append(Field("alt", TBase("bool"), 1))
+        return m
+
+    def make_special(self, which: str) -> Message:
+        """Rare extremes of the documented limits: capacity 65535, 255 fields, deep nesting."""
+        d = self.draw
+        name = self.names.take(d, TYPE_WORDS)
+        m = Message(name, False)
+        if which == "huge_array":
+            # exactly the largest array (and, with the flag, a message of exactly 65535 bits)
+            m.items.append(Field("raw", TArray(TBase("bool"), 65535 if not (self.feat.ext_arrays and d(st.booleans())) else 65519, False), d(st.integers(1, 255))))
+            if m.fields()[0].type.cap == 65519:
+                m.fields()[0].type.ext = True
+        elif which == "many_fields":
+            n = d(st.sampled_from([200, 254, 255]))
+            nums = d(st.permutations(list(range(1, 256))))[:n]
+            for k in range(n):
+                t = TBase("bool") if k % 3 else TBase(d(st.sampled_from(["uint", "int"])), d(st.integers(1, 9)))
+                m.items.append(Field(f"f_{'abcdefghijklmnopqrstuvwxyz'[k % 26]}{'abcdefghijklmnopqrstuvwxyz'[(k // 26) % 26]}", t, nums[k]))
+        else:
+            cur = m
+            self.open_chain.append(m)
+            for depth in range(d(st.integers(5, 9))):
+                sub = Message(self.names.take(d, TYPE_WORDS), self.feat.extensible and d(st.booleans()))
+                sub.items.append(Field("alt", TBase("uint", d(st.integers(1, 11))), 1))
+                cur.items.append(sub)
+                cur.items.append(Field("lat", TRef(sub.name, sub), 2 if cur is not m else 7))
+                cur = sub
+            self.open_chain.pop()
+            # the fields referencing nested messages were appended after them: declaration order is fine
         return m
 
     # -- files -------------------------------------------------------------
@@ -390,6 +422,9 @@ class _Builder:
                     as_name = self.names.take(d, AS_WORDS)
                 f.items.append(Import(x, as_name))
         big = feat.big and d(st.integers(0, 24)) == 0
+        self.special = None
+        if feat.big and d(st.integers(0, 59)) == 0:
+            self.special = d(st.sampled_from(["huge_array", "many_fields", "deep"]))
         ndefs = d(st.integers(1, feat.max_defs))
         kinds = []
         for _ in range(ndefs):
@@ -411,6 +446,11 @@ class _Builder:
                 e.parent_file = f  # type: ignore
                 f.items.append(e)
                 self.done.append((e, ()))
+            elif kind == "message" and self.special is not None:
+                m = self.make_special(self.special)
+                self.special = None
+                f.items.append(m)
+                self.done.append((m, ()))
             elif kind == "message":
                 budget = feat.bits_budget * (12 if big else 1)
                 m = self.make_message(0, budget)
